@@ -575,7 +575,13 @@ static RstSpec genRst(vh::Rng& rng) {
     if (s.lhs[0] == 'W') s.lhsWg = rng.pick(Strs{ "P1", "P2", "OP_1", "P*", "*", "*L1", "'P 1'", "" });
     if (s.lhs[0] == 'G') s.lhsWg = rng.pick(Strs{ "G1", "G2", "FIELD" });
     s.cmp = rng.range(1, 6);
-    if (rng.coin(2, 3)) { s.rhsConst = true; s.rhsVal = restartConstant(rng); }
+    if (rng.coin(1, 6)) {          // DAY / MNTH / YEAR: rebuilt from the quantity TYPE, constant right-hand side
+        s.lhs = rng.pick(Strs{ "DAY", "MNTH", "YEAR" }); s.lhsWg.clear(); s.rhsConst = true;
+        s.rhsVal = s.lhs == "MNTH" ? rng.range(-1, 14) + (rng.coin(1, 4) ? 0.5 : 0.0) : s.lhs == "DAY" ? rng.range(1, 31) : rng.range(2019, 2026);
+        if (rng.coin(1, 10)) s.rhsVal = restartConstant(rng);
+        if (s.lhs == "MNTH" && !(std::fabs(s.rhsVal) < 1e9)) s.rhsVal = 3;      // the int cast of the month index must be defined
+    }
+    else if (rng.coin(2, 3)) { s.rhsConst = true; s.rhsVal = restartConstant(rng); }
     else {
         s.rhsQ = rng.pick(Strs{ "WOPR", "FOPR", "GOPR", "FWCT" });
         if (s.rhsQ[0] == 'W') s.rhsWg = rng.pick(Strs{ "P1", "P3", "I1" });
@@ -600,7 +606,8 @@ static RestartIO::RstAction::Condition rstCondition(const RstSpec& s) {
         if (s.rhsQ[0] == 'W') zacn[VI::ZACN::RHSWell] = s.rhsWg;
         if (s.rhsQ[0] == 'G') zacn[VI::ZACN::RHSGroup] = s.rhsWg;
     }
-    iacn[VI::IACN::LHSQuantityType] = s.lhs[0] == 'W' ? VI::IACN::Value::Well : s.lhs[0] == 'G' ? VI::IACN::Value::Group : VI::IACN::Value::Field;
+    iacn[VI::IACN::LHSQuantityType] = s.lhs[0] == 'W' ? VI::IACN::Value::Well : s.lhs[0] == 'G' ? VI::IACN::Value::Group :
+                                      s.lhs[0] == 'D' ? VI::IACN::Value::Day : s.lhs[0] == 'M' ? VI::IACN::Value::Month : s.lhs[0] == 'Y' ? VI::IACN::Value::Year : VI::IACN::Value::Field;
     iacn[VI::IACN::TerminalLogic] = s.logic;
     iacn[VI::IACN::Paren] = s.lp ? VI::IACN::Value::Open : s.rp ? VI::IACN::Value::Close : VI::IACN::Value::None;
     iacn[VI::IACN::Comparator] = s.cmp;
@@ -619,7 +626,8 @@ static std::string rstProto(const RstSpec& s) {
 
 static std::string realRstTokens(const RstSpec& s) {
     if (s.rhsConst && !fmtDefined(s.rhsVal)) return "none";
-    const auto toks = rstCondition(s).tokens();
+    Strs toks;
+    try { toks = rstCondition(s).tokens(); } catch (const std::out_of_range&) { return "none"; }      // month index outside 1..12
     std::string o;
     for (size_t i = 0; i < toks.size(); ++i) { if (i) o += ","; o += toks[i].empty() ? std::string("-") : vh::hex(toks[i]); }
     return o;
@@ -674,7 +682,7 @@ static std::string realRstEval(const std::vector<RstSpec>& cs, const Action::Con
     for (auto& c : cs) if (c.rhsConst && !fmtDefined(c.rhsVal)) return "none";
     try {
         std::vector<RestartIO::RstAction::Condition> conds;
-        for (auto& c : cs) conds.push_back(rstCondition(c));
+        try { for (auto& c : cs) conds.push_back(rstCondition(c)); } catch (const std::out_of_range&) { return "none"; }
         RestartIO::RstAction ra("ACT", 10, 0, 0.0, 0, 0, conds);
         Action::ActionX ax(ra);
         try { return showResult(ax.eval(ctx)); } catch (const std::exception&) { return "err"; }
@@ -717,6 +725,10 @@ static std::vector<RstSpec> genRstList(vh::Rng& rng, bool exact) {
             s.rhsQ = rng.pick(Strs{ "FOPR", "FWCT", "GOPR", "WOPR" });
             if (s.rhsQ[0] == 'W') s.rhsWg = rng.pick(Strs{ "P1", "P2", "'P1'" });
             if (s.rhsQ[0] == 'G') s.rhsWg = rng.pick(Strs{ "G1", "G2" });
+        }
+        if (rng.coin(1, 5)) {      // a date condition
+            s.lhs = rng.pick(Strs{ "DAY", "MNTH", "YEAR" }); s.lhsWg.clear(); s.rhsConst = true; s.rhsQ.clear(); s.rhsWg.clear();
+            s.rhsVal = s.lhs == "MNTH" ? rng.range(exact ? 1 : 0, exact ? 12 : 13) : s.lhs == "DAY" ? rng.range(1, 28) : rng.range(2019, 2025);
         }
         s.logic = (i + 1 < n) ? rng.range(1, 2) : 0;
         cs.push_back(s);
@@ -1133,6 +1145,11 @@ int main(int argc, char** argv) {
                     }
                 } catch (const std::exception& e) { okk = false; why = e.what(); }
                 if (!okk) { log.fail("restart-exception", joinStrs(all) + " : " + why); continue; }
+                // reported defect of the real reader (design.d/C18.restart-date-paren.*): a parenthesis on a DAY / MNTH / YEAR
+                // comparison is dropped.  Such lists are counted, not judged, until the main session decides about the fix.
+                bool dateParen = false;
+                for (const auto& sp : stored) if ((sp.lhs == "DAY" || sp.lhs == "MNTH" || sp.lhs == "YEAR") && (sp.lp || sp.rp)) dateParen = true;
+                if (dateParen) { ++stats["restart_eval_list.date_paren_not_judged"]; continue; }
                 std::string r0;
                 try { Action::AST ast(all); try { r0 = showResult(ast.eval(*env.ctx)); } catch (const std::exception&) { r0 = "err"; } } catch (const std::exception&) { r0 = "noparse"; }
                 const std::string r1 = realRstEval(stored, *env.ctx);
